@@ -1,5 +1,5 @@
 (* C20 - duplicated rules never contradict each other.  Statements only (proofs: Kernels/Order.v, Kernels/Pairs.v). *)
-From ZL Require Import Base.Bytes Kernels.Order Kernels.Pairs Kernels.Names Kernels.NamesFacts Kernels.GeneralNames Kernels.GeneralNamesFacts Kernels.Urls Kernels.UrlsFacts Kernels.Scope Kernels.SubjPresence Kernels.CaKu.
+From ZL Require Import Base.Bytes Kernels.Order Kernels.Pairs Kernels.Names Kernels.NamesFacts Kernels.GeneralNames Kernels.GeneralNamesFacts Kernels.Urls Kernels.UrlsFacts Kernels.Scope Kernels.SubjPresence Kernels.CaKu Kernels.Crit Kernels.Header Kernels.NcForm Kernels.Policies Kernels.EvPresence Kernels.SmimeKu Kernels.ExtPresence Kernels.KuMasks.
 From Coq Require Import ZArith List.
 Open Scope Z_scope.
 
@@ -93,6 +93,75 @@ Proof. exact ku_missing_rules. Qed.
 Theorem c20_root_ku_critical_same : forall v, root_ca v = true -> k_root_ku_critical v = k_ca_ku_not_critical v.
 Proof. exact root_ku_critical_same. Qed.
 
+(* twenty criticality lints (Kernels/Crit.v): rules about one extension that demand the same marking agree wherever both
+   apply; the table never demands opposite markings of one extension; and there is a marking that passes all twenty *)
+Theorem c20_same_marking_rules_agree : forall r1 r2 v,
+  r_ext r1 = r_ext r2 -> r_must_be_critical r1 = r_must_be_critical r2 -> r_finding r1 <> 3 -> r_finding r2 <> 3 ->
+  crit_lint r1 v <> 1 -> crit_lint r2 v <> 1 -> (crit_lint r1 v = 3 <-> crit_lint r2 v = 3).
+Proof. exact same_marking_rules_agree. Qed.
+Theorem c20_criticality_table_consistent : consistent crit_table = true.
+Proof. exact table_consistent. Qed.
+Theorem c20_criticality_satisfiable : forall ca ss, forallb (fun s => (s =? 1) || (s =? 3)) (all_crit_lints (mkCrit ca ss good_marking)) = true.
+Proof. exact good_marking_passes. Qed.
+
+(* fixed-field lints (Kernels/Header.v): a positive serial number is "longer than 20 octets" exactly from 2^159 on; the
+   extension-version rule implies the version rule; the unique-identifier version rule implies the presence rule *)
+Theorem c20_serial_too_long_exact : forall v, 0 < h_serial v -> (h_serial_too_long v = 6 <-> 2 ^ 159 <= h_serial v).
+Proof. exact serial_too_long_positive. Qed.
+Theorem c20_version_rules : forall v, h_exts_version v = 6 -> h_invalid_version v = 6.
+Proof. exact exts_version_implies_invalid_version. Qed.
+Theorem c20_uid_rules : forall v, h_uid_version v = 6 -> h_contains_uid v = 6.
+Proof. exact uid_version_implies_contains_uid. Qed.
+
+(* the two sibling rules of RFC 5280 4.2.1.10 (Kernels/NcForm.v): the minimum rule looks at every subtree of every
+   list; the maximum rule, as written, does not - a maximum on a permitted rfc822Name subtree goes unreported (an
+   observation about the code, outside the pairs this property lists; DESIGN.md 13.6) *)
+Theorem c20_nc_min_total : forall v, nc_ext v = true -> length (nc_lists v) = 14%nat ->
+  (n_min v = 6 <-> exists l s, In l (nc_lists v) /\ In s l /\ fst s <> 0).
+Proof. exact n_min_spec. Qed.
+Theorem c20_nc_max_skips_permitted_email : exists v, nc_ext v = true /\ length (nc_lists v) = 14%nat /\
+  (exists l s, In l (nc_lists v) /\ In s l /\ snd s <> 0) /\ n_max v = 3.
+Proof. exact nc_max_skips_permitted_email. Qed.
+
+(* explicitText string type (Kernels/Policies.v): the IA5String error always comes with the not-UTF8 warning *)
+Theorem c20_ia5_implies_not_utf8 : forall v, q_ia5 v = 6 -> q_not_utf8 v = 5.
+Proof. exact ia5_implies_not_utf8. Qed.
+
+(* the EV country / organization rules are the IV-OV policy rules of the TLS BRs applied to the same subject *)
+Theorem c20_ev_country_is_policy_rule : forall sv v, ev_types v = s_types sv -> e_country v = l_requires_country sv.
+Proof. exact ev_country_is_policy_rule. Qed.
+Theorem c20_ev_org_is_ov_rule : forall sv v, ev_types v = s_types sv -> e_org v = l_ov_requires_org sv.
+Proof. exact ev_org_is_ov_rule. Qed.
+
+(* the S/MIME key-usage generations (Kernels/SmimeKu.v; every statement for all 512 values of the nine bits): the strict
+   RSA rule accepts exactly five values; what it accepts the legacy / multipurpose rule accepts; the type rule answers
+   NA exactly when the companion "other usages" rule does not pass, so together they judge every value *)
+Theorem c20_rsa_strict_accepts : forall k, 0 <= k < 512 -> (s_rsa_strict k = 3 <-> In k [1; 3; 4; 5; 7]).
+Proof. exact rsa_strict_accepts. Qed.
+Theorem c20_rsa_strict_implies_legacy : forall k, 0 <= k < 512 -> s_rsa_strict k = 3 -> s_rsa_legacy k = 3.
+Proof. exact rsa_strict_implies_legacy. Qed.
+Theorem c20_type_and_other_partition : forall k, 0 <= k < 512 -> (s_rsa_strict k = 1 <-> s_rsa_other k <> 3).
+Proof. exact type_and_other_partition. Qed.
+
+(* extension-presence lints (Kernels/ExtPresence.v): the error- and warning-level subordinate-CA AIA lints are one test;
+   and the RFC 5280 / BR recommendations about subjectKeyIdentifier in subscriber certificates are opposite, so exactly
+   one of the two lints warns on every subscriber certificate - a disagreement of the sources, which the lints render
+   faithfully (they are not copies of one rule) *)
+Theorem c20_sub_ca_aia_same_test : forall v,
+  presence_lint (nth 0 presence_table (mkPRule PRoot 0 true 0)) v = 3 <-> presence_lint (nth 1 presence_table (mkPRule PRoot 0 true 0)) v = 3.
+Proof. exact sub_ca_aia_same_test. Qed.
+Theorem c20_subscriber_ski_always_warned : forall v, prole_ok PSubscriber v = true ->
+  (presence_lint (mkPRule PNonCA 9 true 5) v = 5 /\ presence_lint (mkPRule PSubscriber 9 false 5) v = 3) \/
+  (presence_lint (mkPRule PNonCA 9 true 5) v = 3 /\ presence_lint (mkPRule PSubscriber 9 false 5) v = 5).
+Proof. exact subscriber_ski_always_warned. Qed.
+
+(* RFC key-usage companions (Kernels/KuMasks.v; all 512 values): what is forbidden to an RSA CA key is forbidden to an RSA
+   subscriber key; the ECDSA error always comes with the ECDSA subscriber notice *)
+Theorem c20_rsa_ca_error_implies_ee_error : forall k, 0 <= k < 512 -> m_rsa_ca k = 6 -> m_rsa_ee k = 6.
+Proof. exact rsa_ca_error_implies_ee_error. Qed.
+Theorem c20_ecdsa_error_implies_ee_notice : forall k, 0 <= k < 512 -> m_ecdsa k = 6 -> m_ecdsa_ee k = 4.
+Proof. exact ecdsa_error_implies_ee_notice. Qed.
+
 Print Assumptions c20_label_pairs.
 Print Assumptions c20_uri_host_pair.
 Print Assumptions c20_uri_host_old_refuted.
@@ -114,3 +183,21 @@ Print Assumptions c20_dv_values_imply_no_conflict.
 Print Assumptions c20_cert_sign_rules_agree.
 Print Assumptions c20_ku_missing_rules.
 Print Assumptions c20_root_ku_critical_same.
+Print Assumptions c20_same_marking_rules_agree.
+Print Assumptions c20_criticality_table_consistent.
+Print Assumptions c20_criticality_satisfiable.
+Print Assumptions c20_serial_too_long_exact.
+Print Assumptions c20_version_rules.
+Print Assumptions c20_uid_rules.
+Print Assumptions c20_nc_min_total.
+Print Assumptions c20_nc_max_skips_permitted_email.
+Print Assumptions c20_ia5_implies_not_utf8.
+Print Assumptions c20_ev_country_is_policy_rule.
+Print Assumptions c20_ev_org_is_ov_rule.
+Print Assumptions c20_rsa_strict_accepts.
+Print Assumptions c20_rsa_strict_implies_legacy.
+Print Assumptions c20_type_and_other_partition.
+Print Assumptions c20_sub_ca_aia_same_test.
+Print Assumptions c20_subscriber_ski_always_warned.
+Print Assumptions c20_rsa_ca_error_implies_ee_error.
+Print Assumptions c20_ecdsa_error_implies_ee_notice.
